@@ -2,6 +2,8 @@ import ComposeVerif.Ops.Common
 import ComposeVerif.Model.Interp
 import ComposeVerif.Spec.Interp
 import ComposeVerif.Model.InterpCustom
+import ComposeVerif.Model.InterpFloat
+import ComposeVerif.Spec.InterpTree
 import ComposeVerif.Gen.Tables
 /-! line-protocol ops for C08: `interpolate` (model of interpolation.Interpolate with the regenerated cast
 table), `c08casters` (the integer / boolean casters alone), `c08escape` (the `$`→`$$` rewriting of the spec) -/
@@ -19,12 +21,22 @@ def lookupTable (l : List (String × String)) (s : String) : Option String :=
   | some p => some p.2
   | none => none
 
+/-- the opaque part of the float casters, as tables rendered by the harness from the real `strconv.ParseFloat` and the
+    real integer→float conversions: `p64`/`p32` text ↦ rendering (absent = error), `i64`/`i32` decimal integer ↦ rendering -/
+def rawFloatOf (args : Json) : RawFloat :=
+  let ofInt (t : List (String × String)) (i : Int) : String :=
+    match lookupTable t (ToString.toString i) with
+    | some r => r
+    | none => "?no-rendering-of-" ++ ToString.toString i
+  { parse64 := lookupTable (getStrMap args "p64"), parse32 := lookupTable (getStrMap args "p32")
+    ofInt64 := ofInt (getStrMap args "i64"), ofInt32 := ofInt (getStrMap args "i32") }
+
 def cfgOf (args : Json) : Cfg :=
   { table := CV.Gen.castTable
-    fp := { f64 := lookupTable (getStrMap args "f64"), f32 := lookupTable (getStrMap args "f32") }
+    fp := (rawFloatOf args).parser
     env := envOfList (getStrMap args "env") }
 
-/-- `{"tree": T(map), "env": {…}, "f64": {text: repr}, "f32": {…}}` →
+/-- `{"tree": T(map), "env": {…}, "p64": {text: repr}, "p32": {…}, "i64": {int: repr}, "i32": {…}}` →
     `{"ok": T}` | `{"errs": [every error reachable under some map order], "first": the list-order one}` | `{"panic": site}` -/
 def interpolateOp : Handler := fun args =>
   match Val.ofJson (getObj args "tree") with
@@ -37,7 +49,7 @@ def interpolateOp : Handler := fun args =>
   | .ok _ => Json.mkObj [("bad", "tree is not a mapping")]
   | .error e => Json.mkObj [("bad", e)]
 
-/-- the casters alone: `{"s": text}` → `{"int": "n"|null, "bool": b|null}` -/
+/-- the casters alone: `{"s": text, "p64": …, "p32": …, "i64": …, "i32": …}` → `{"int": "n"|null, "bool": b|null, "f64": …, …}` -/
 def castersOp : Handler := fun args =>
   let s := getStr args "s"
   Json.mkObj [
@@ -45,8 +57,32 @@ def castersOp : Handler := fun args =>
     ("bool", match parseBool s with | some b => Json.bool b | none => Json.null),
     ("yamlint", match yamlInt s with | some i => Json.str (ToString.toString i) | none => Json.null),
     ("devicecount", match decodeDeviceCount s with | some i => Json.str (ToString.toString i) | none => Json.null),
-    ("bytes", Json.arr #[Json.str (unitBytesClass s).1, Json.str (unitBytesClass s).2])]
+    ("bytes", Json.arr #[Json.str (unitBytesClass s).1, Json.str (unitBytesClass s).2]),
+    ("f64", match (rawFloatOf args).parser.f64 s with | some r => Json.str r | none => Json.null),
+    ("f32", match (rawFloatOf args).parser.f32 s with | some r => Json.str r | none => Json.null),
+    ("nanocpus", match decodeNanoCPUs (rawFloatOf args).parser s with | some r => Json.str r | none => Json.null)]
 
-def handlers : List (String × Handler) := [("interpolate", interpolateOp), ("c08casters", castersOp)]
+/-- the document with nothing substituted (`Spec/InterpTree.lean: castDocument`) and the `$`→`$$` rewriting of the spec:
+    `{"tree": T(map), "p64": …, "p32": …, "i64": …, "i32": …}` →
+    `{"ok": T}` | `{"errs": [the cast error of every string leaf], "first": the list-order one}`, plus `"escaped": T` -/
+def castDocOp : Handler := fun args =>
+  match Val.ofJson (getObj args "tree") with
+  | .ok (.map kvs) =>
+    let c := cfgOf args
+    let esc := Val.toJson (.map (escapeKVs kvs))
+    match castDocument c kvs with
+    | .ok kvs' => Json.mkObj [("ok", Val.toJson (.map kvs')), ("escaped", esc)]
+    | .err e =>
+      let all := (leavesKVs TPath.root kvs).filterMap (fun qs =>
+        match castOnly c qs.1 qs.2 with
+        | .err e' => some (errJson e')
+        | _ => none)
+      Json.mkObj [("errs", Json.arr all.toArray), ("first", errJson e), ("escaped", esc)]
+    | .panic s => Json.mkObj [("panic", s), ("escaped", esc)]
+  | .ok _ => Json.mkObj [("bad", "tree is not a mapping")]
+  | .error e => Json.mkObj [("bad", e)]
+
+def handlers : List (String × Handler) :=
+  [("interpolate", interpolateOp), ("c08casters", castersOp), ("c08castdoc", castDocOp)]
 
 end CV.Ops.C08
